@@ -266,9 +266,10 @@ class Ob:
         self._twins = {}
 
     # ---- exploration -------------------------------------------------------------------
-    def paths(self, pre, body, catch=(Exception,), profile=True):
+    def paths(self, pre, body, catch=(Exception,), profile=True, incremental=False):
         """explore body() under preconditions `pre`; yields Path; budget overrun -> inconclusive"""
-        ex = Explorer(pre, max_paths=self.max_paths, deadline=self.deadline, catch=catch)
+        ex = Explorer(pre, max_paths=self.max_paths, deadline=self.deadline, catch=catch, incremental=incremental)
+        self._ex = ex
         first = profile and not self._profiled
 
         def run():
@@ -318,7 +319,15 @@ class Ob:
             self.r.inconclusive.append(f"reachability unknown {label}")
         return None
 
-    def prove(self, pre, path, claim, label, inputs=None, replay=None, extra=()):
+    def witness(self, path, label=""):
+        """vacuity witness from the explorer's own solver (which holds the preconditions): cheaper than `reachable`"""
+        m = self._ex.model_of(path)
+        self.r.queries += 1
+        if m is not None:
+            self.r.vacuity_ok += 1
+        return m
+
+    def prove(self, pre, path, claim, label, inputs=None, replay=None, extra=(), group=None):
         """claim: z3 Bool (or python bool) that must hold on this path.  Returns 'proved'|'sat'|'unknown'."""
         if isinstance(claim, SymBool):
             claim = claim.e
@@ -345,14 +354,14 @@ class Ob:
             self.r.inconclusive.append(f"solver unknown/timeout: {label}")
             return "unknown"
         self.r.sat += 1
-        self._candidate(cons, m, label, inputs, replay)
+        self._candidate(cons, m, label, inputs, replay, group)
         return "sat"
 
-    def _candidate(self, cons, model, label, inputs, replay):
+    def _candidate(self, cons, model, label, inputs, replay, group=None):
         """turn a sat model into a replayed violation (or an unreproduced candidate)"""
         inputs = inputs or {}
         tried = []
-        if len(self.r.violations) >= 3:
+        if len([v for v in self.r.violations if v.get("group") == group]) >= 3:
             # enough reproduced counterexamples for this obligation: further sat answers are counted, not replayed
             self.r.meta["further_sat_not_replayed"] = self.r.meta.get("further_sat_not_replayed", 0) + 1
             return
@@ -382,7 +391,7 @@ class Ob:
             tried.append({"inputs": _jsonable(vals), "detail": rep.get("detail")})
             if rep.get("reproduced"):
                 self.r.violations.append({"label": label, "inputs": _jsonable(vals), "replay": rep.get("path"),
-                                          "detail": rep.get("detail"), "key": rep.get("key", label)})
+                                          "detail": rep.get("detail"), "key": rep.get("key", label), "group": group})
                 return
         self.r.unreproduced.append({"label": label, "tried": tried, "why": "candidate did not reproduce on the real code"})
 
